@@ -69,6 +69,11 @@ NOTES = {
  "C20-seed5": "missed by C20 as it stood but caught by C13 (sink space); C20 catches it since every case starts with an export of a decoy sheet into a writer that refuses every byte",
  "C05-seed6": "missed by C05 as it stood (the hidden flag of a row only ever came together with a height and a style); caught since the dims space gives every column / row one of FIVE states, `hidden only` among them",
  "C06-seed6": "missed by C06 as it stood (its tab colour was always an rgb value) but caught by C04 (corpus files with theme tab colours); C06 catches it since the kind `tab-color-theme` (theme index + tint, no rgb) was added",
+ "C12-seed6": "missed by C12 as it stood (no cell of its histories was a formula) but caught by C11 (corpus files with text formulas); C12 catches it since the space `formula-text` runs the history tree with a marker that reaches its cell as the cached text of a formula (a t=\"str\" cell): its <v> must hold the text, and the text must not turn up in sharedStrings.xml",
+ "C14-seed6": "missed by C14 as it stood (every save ran alone; the first verify.log entry shows `suspension-point-not-reached` only because the overlap space was already being written while the hook it needs was not yet in /repo - that is not a detection). Caught since (a) /repo has two guarded hook points inside helper::crypt::encrypt (compound file created / completely written; patch.diff is the change rebased onto that commit, patch-at-65ea4d2.diff the original) and (b) C14 has the space `overlap`: save A suspended at either point, save B (other entry point, other password, other package, same directory) run to completion there, both files judged for their OWN password and package - 3 x 2 x 3 cases, deterministic; C13's overlap space got the same two suspension points and an encrypted B",
+ "C16-seed6": "NOT DECIDED by C16 as it stood within 20 minutes (run stopped by hand, exit 137 in the first verify.log entry): the change adds three lock operations per save, each with a hook point as the convention demands, and the COMPLETE exploration of the 2-saver configurations grows combinatorially with them. Caught in 4 s since C16 runs iterative context bounding: a first space with every completely explored configuration at <= 2 preemptions, and the engine skips the remaining spaces when a `first:` space already reports violations (patch.diff is the change rebased onto the commit that added hook sites 13/14, patch-at-65ea4d2.diff the original)",
+ "C17-seed6": "missed by C17 as it stood: the change is a process-wide name table behind a std RwLock with a check-then-act race - correct for every input on one thread, which is all the property quantifies over and all an enumeration of inputs can see; the lock carries no hook, so the cooperative scheduler cannot own it. Reported since the columns space also runs as `columns~par` (4 cases at a time on free-running threads, cold process): SUPPLEMENTARY and sampled - it reported the change in 2 of 2 runs, but a clean `~par` pass proves nothing and is not part of the exhaustive claim",
+ "C20-seed6": "missed by C20 as it stood (every text reached its cell through set_value_string); caught since the sheet specifications carry every text-bearing special value also as a rich text of one and of two runs, as the cached text of a formula and through auto-typed set_value (`carrier:*` specs)",
  "C09-seed2": "caught by C09 as it stood (translate clause: a reference leaving the grid followed by another reference) and by C03 (shared-edge family)",
 
  "C11-seed1": "missed by the check as it stood when the seed arrived (exit 0: no operation of the alphabet made a materialised sheet need a NEW numbered dependent part); caught after the edit operation also adds a comment (clause saved-content-equals-eager, the unloaded sheet's comments are replaced)",
@@ -103,6 +108,8 @@ for d in sorted(glob.glob('/verif/seeded/*/')):
     wo2, wi2 = res('demo WITHOUT the change (single-threaded)'), res('demo WITH the change (single-threaded)')
     if wo2 and wi2:
         wo, wi = wo2, wi2
+    # a result the lead has voided (annotated on the next line) counts as a miss
+    txt = re.sub(r'^RESULT (\S+) tier=(\S+) exit=\d+\nVOID-COUNTS-AS-MISSED', r'RESULT \1 tier=\2 exit=0\nVOID-COUNTS-AS-MISSED', txt, flags=re.M)
     ours = re.findall(r'^RESULT (\S+) tier=(\S+) exit=(\d+)', txt, flags=re.M)
     clauses = sorted(set(re.findall(r'clause=(\S+) symptom=(\S+)', txt)))[:6]
     meta = {}
